@@ -76,9 +76,10 @@ pub fn limit_size<T: PbMessage + Clone>(entries: &mut Vec<T>, max: Option<u64>) 
 /// Check whether the entry is continuous to the message.
 /// i.e msg's next entry index should be equal to the index of the first entry in `ents`
 pub fn is_continuous_ents(msg: &Message, ents: &[Entry]) -> bool {
-    if !msg.entries.is_empty() && !ents.is_empty() {
-        let expected_next_idx = msg.entries.last().unwrap().index + 1;
-        return expected_next_idx == ents.first().unwrap().index;
+    if let Some(first) = ents.first() {
+        // An empty message is anchored at `msg.index`: the entries must follow it.
+        let expected_next_idx = msg.entries.last().map_or(msg.index, |e| e.index) + 1;
+        return expected_next_idx == first.index;
     }
     true
 }
